@@ -35,7 +35,7 @@ FLATTENS = {"flatten", "ravel", "unflatten"}
 BATCH_STAT_FUNCS = {"batch_norm", "instance_norm", "dropout", "dropout1d", "dropout2d", "dropout3d", "alpha_dropout",
                     "feature_alpha_dropout", "rrelu", "gumbel_softmax"}
 WHOLE_TENSOR = {"unique", "unique_consecutive", "nonzero", "masked_select", "argwhere", "bincount", "histc", "histogram",
-                "item", "tolist", "numel"}
+                "item", "tolist", "numel", "nelement"}
 REDUCE_HELPERS = {"reduce_operator": 2, "complex_dot_product": 2, "root_sum_of_squares": 1}
 
 
@@ -399,6 +399,25 @@ def scan_prims(name: str, fn: ast.FunctionDef, cls, attrs, fparams: dict | None 
         kind, ax = cx.axes(dim)
         add(family, op, kind, ax, node)
 
+    # the batch size used as a number (`x / x.size(0)`, `x * b`): a result that depends on the batch size.  Extents handed to
+    # reshape / view / allocation calls and list concatenations of extents are structure, not arithmetic on values.
+    shape_ctx = set()
+    for c in ast.walk(fn):
+        if isinstance(c, ast.Call):
+            nm = ast.unparse(c.func).split(".")[-1]
+            if nm in RESHAPES or nm in ("zeros", "ones", "empty", "full", "new_zeros", "new_ones", "new_empty", "new_full", "expand", "repeat",
+                                        "randn", "rand", "range", "arange", "split", "chunk", "narrow", "unflatten", "tile", "broadcast_to"):
+                for a in list(c.args) + [k.value for k in c.keywords]:
+                    for s_ in ast.walk(a):
+                        shape_ctx.add(id(s_))
+        if isinstance(c, (ast.List, ast.Tuple)):
+            for s_ in ast.walk(c):
+                shape_ctx.add(id(s_))
+    for n in ast.walk(fn):
+        if isinstance(n, ast.BinOp) and isinstance(n.op, (ast.Div, ast.Mult, ast.FloorDiv, ast.Pow, ast.Mod)) and id(n) not in shape_ctx \
+                and id(n) not in skip:
+            if any(cx.head_code(side) == 0 for side in (n.left, n.right)):
+                add(7, "batch-size-arithmetic", 0, [], n)
     for n in ast.walk(fn):
         if id(n) in skip:
             continue
@@ -517,7 +536,7 @@ def scan_prims(name: str, fn: ast.FunctionDef, cls, attrs, fparams: dict | None 
                 kind, ax = cx.axes(a)
                 good = good and kind == 0
                 flat += ax
-            add(2, op, 0 if good else 2, flat if good else [], n)
+            add(2, op, 1 if good else 2, flat if good else [], n)
             continue
         if tensor_method and op in RESHAPES:
             args = n.args[1:] if is_fn_form else n.args
@@ -572,7 +591,7 @@ def scan_prims(name: str, fn: ast.FunctionDef, cls, attrs, fparams: dict | None 
                 txt = ast.unparse(tr)
                 add(6, op, 0 if txt in ("False", "self.training") else 1 if txt == "True" else 2, [], n)
             continue
-        if tensor_method and op in WHOLE_TENSOR and op not in ("item", "tolist", "numel"):
+        if tensor_method and op in WHOLE_TENSOR and op not in ("item", "tolist"):
             add(7, op, 0, [], n)
             continue
         # ---- any other call that is handed an axis: `dim=` / `dims=` / `axis=` keywords (operators, fft helpers, torch.fft),
@@ -603,10 +622,13 @@ def scan_prims(name: str, fn: ast.FunctionDef, cls, attrs, fparams: dict | None 
 #  7 mutable default argument ([] / {} / set() / a call)
 #  8 in-place method, item assignment or augmented assignment on a parameter (the caller's tensor is modified)
 #  9 in-place method on a local tensor (`t.set_()`): allowed, recorded so that the table is not vacuous
+# 10 the result depends on a process-wide mode that is not an input (`torch.is_grad_enabled()`, default dtype, RNG state, …)
 MUTATORS = {"append", "extend", "insert", "pop", "remove", "clear", "update", "setdefault", "popitem", "add", "discard", "sort", "reverse"}
 SWITCHES = {"set_default_dtype", "set_default_device", "set_default_tensor_type", "set_grad_enabled", "use_deterministic_algorithms",
             "set_num_threads", "set_num_interop_threads", "set_flush_denormal", "manual_seed", "seed", "set_rng_state",
             "set_float32_matmul_precision", "set_printoptions", "set_anomaly_enabled", "set_detect_anomaly"}
+MODE_READS = {"is_grad_enabled", "is_inference_mode_enabled", "is_autocast_enabled", "is_anomaly_enabled", "are_deterministic_algorithms_enabled",
+              "get_default_dtype", "get_num_threads", "get_rng_state", "initial_seed"}
 MEMO = {"lru_cache", "cache", "cached_property", "memoize", "memoized"}
 
 
@@ -642,7 +664,23 @@ def scan_effects(name: str, fn: ast.FunctionDef, cls, fidx: FileIndex) -> list[t
     class_names = set(fidx.classes)
     mod_names = fidx.module_names - locals_assigned - params
     rebound: dict[str, int] = {}          # parameter -> first line on which the name is bound to something else
+    default_init = set()                  # assignments inside `if <param> is None:` / `if not <param>:` only supply a default
     for n in ast.walk(fn):
+        if isinstance(n, ast.If):
+            t = n.test
+            nm = None
+            if isinstance(t, ast.Compare) and isinstance(t.left, ast.Name) and len(t.ops) == 1 and isinstance(t.ops[0], ast.Is) \
+                    and isinstance(t.comparators[0], ast.Constant) and t.comparators[0].value is None:
+                nm = t.left.id
+            elif isinstance(t, ast.UnaryOp) and isinstance(t.op, ast.Not) and isinstance(t.operand, ast.Name):
+                nm = t.operand.id
+            if nm in params:
+                for st in n.body:
+                    for s_ in ast.walk(st):
+                        default_init.add(id(s_))
+    for n in ast.walk(fn):
+        if id(n) in default_init:
+            continue
         tg = []
         if isinstance(n, ast.Assign):
             tg = n.targets
@@ -654,7 +692,7 @@ def scan_effects(name: str, fn: ast.FunctionDef, cls, fidx: FileIndex) -> list[t
                     rebound[s.id] = min(rebound.get(s.id, 10 ** 9), n.lineno)
 
     def is_input(nm: str, node) -> bool:
-        return nm in params and getattr(node, "lineno", 0) <= rebound.get(nm, 10 ** 9)
+        return nm in params and getattr(node, "lineno", 0) <= rebound.get(nm, 10 ** 9) and id(node) not in default_init
 
     def add(kind, detail):
         rows.append((name, kind, detail[:60]))
@@ -748,6 +786,8 @@ def scan_effects(name: str, fn: ast.FunctionDef, cls, fidx: FileIndex) -> list[t
                         add(1, "self." + meth)
                 if ftxt.split(".")[-1] in SWITCHES and (ftxt.startswith("torch.") or ftxt.startswith("np.random") or ftxt.startswith("random.")):
                     add(6, ftxt)
+                if ftxt.split(".")[-1] in MODE_READS and ftxt.startswith("torch."):
+                    add(10, ftxt)
                 inplace = (meth.endswith("_") and not meth.endswith("__") and not meth.startswith("_")) or meth in MUTATORS
                 if inplace:
                     r = _root(recv)
